@@ -188,6 +188,12 @@ class SqlalchemyRender:
                 sa_op = getattr(arg0, method)
 
                 col = sa_op(arg1)
+                # sqlalchemy negates is_()/is_not() to themselves unless the operand is None:
+                # NOT (a IS NULL) would be rendered as a IS NULL
+                if op == 'is':
+                    col.negate = sa.sql.operators.is_not
+                elif op == 'is not':
+                    col.negate = sa.sql.operators.is_
             elif t.op.lower() in functions:
                 func = functions[t.op.lower()]
                 col = func(arg0, arg1)
